@@ -477,6 +477,13 @@ func (t *glTr) call(x *ast.CallExpr) (string, bool) {
 	case "string", "[]byte":
 		c, p := t.expr(x.Args[0])
 		return t.seq([]string{c}, []bool{p}, func(s []string) string { return "(Glb.Go.toStr " + s[0] + ")" })
+	case "int", "int64", "byte", "uint8", "uint32":
+		if v, ok := glConst(x.Args[0]); ok {
+			ty := map[string]string{"int": "Int", "int64": "Int", "byte": "UInt8", "uint8": "UInt8", "uint32": "UInt32"}[name]
+			return "(" + glNum(v) + " : " + ty + ")", true
+		}
+	}
+	switch name {
 	case "int", "int64":
 		c, p := t.expr(x.Args[0])
 		return t.seq([]string{c}, []bool{p}, func(s []string) string { return "(Glb.Go.ToInt.toInt " + s[0] + ")" })
@@ -1551,6 +1558,27 @@ func glTranslateUnit(u glUnit) {
 				}
 			}
 		}
+		// named results are ordinary variables initialised to their zero values (bare `return` is refused)
+		if decl.Type.Results != nil {
+			for _, fld := range decl.Type.Results.List {
+				for _, n := range fld.Names {
+					if !glIdentUsed(decl.Body, n.Name) {
+						continue
+					}
+					ty := glType(fld.Type)
+					if ty == "" {
+						if f.Env["zero:"+n.Name] == "" {
+							continue // a named result that is never read as a variable is harmless; a use is refused as unknown identifier
+						}
+						t.define(n, n.Name)
+						t.line(1, "let mut %s := %s", t.nm(n.Name), f.Env["zero:"+n.Name])
+						continue
+					}
+					t.define(n, n.Name)
+					t.line(1, "let mut %s : %s := %s", t.nm(n.Name), ty, glZero(ty))
+				}
+			}
+		}
 		for _, s := range decl.Body.List {
 			t.stmt(1, s)
 		}
@@ -1567,6 +1595,17 @@ func glTranslateUnit(u glUnit) {
 	fmt.Fprintf(&b, "\nend %s\n", u.NS)
 	writeIfChanged(u.Module, b.String())
 	facts["golean."+u.Module] = names
+}
+
+func glIdentUsed(body *ast.BlockStmt, name string) bool {
+	found := false
+	ast.Inspect(body, func(n ast.Node) bool {
+		if id, ok := n.(*ast.Ident); ok && id.Name == name {
+			found = true
+		}
+		return true
+	})
+	return found
 }
 
 func glParamAssigned(body *ast.BlockStmt, name string) bool {
@@ -1704,6 +1743,15 @@ func extractGoLean() {
 			{File: "httpd/tree.go", Name: "findRoute", Args: "(node : Glb.Router.Node) (path method : Bytes) (pK pV : List Bytes)", Ret: "(List Bytes × List Bytes × Option Glb.Router.RouteId)",
 				Fields: nodeFields, Env: routerEnv, MapFields: map[string]string{"next": "ptr"}, MapVars: map[string]string{"methodTagMap": "zero"},
 				Ptr: map[string]bool{"params.K": true, "params.V": true}, Thread: []string{"pK", "pV"}},
+		},
+	})
+
+	glTranslate(glUnit{
+		Module: "TrConfig", NS: "Glb.Tr.Config",
+		Funcs: []glFunc{
+			// field.Tag.Get("flag") and strings.ToLower(field.Name) are outside the model: parameters
+			{File: "config/config.go", Name: "parseStructFieldTag", Args: "(tag lowerName : Bytes)", Ret: "(Bytes × Bytes × Bytes)",
+				Tuples: map[string][]string{`field.Tag.Get("flag")`: {"tag"}, "strings.ToLower(field.Name)": {"lowerName"}}},
 		},
 	})
 }
